@@ -3,8 +3,20 @@
 set -e
 cd "$(dirname "$0")"
 mkdir -p build evidence
-(cd lean && lake build 2>&1 | tail -5)
-export GOFLAGS=-mod=mod GOPROXY=off GOSUMDB=off GOTOOLCHAIN=local
-cp /repo/go.sum harness/go.sum
-(cd harness && go build -o ../build/ ./cmd/... )
+(cd lean && lake build 2>&1 | tail -3)
+python3 - <<'PY'
+import sys
+sys.path.insert(0, 'tools')
+import checklib
+from registry import STREAMS
+bad = 0
+for name in STREAMS:
+    log = []
+    out, err = checklib.build_stream(name, log)
+    print('stream', name, 'ok' if out else 'FAILED')
+    if not out:
+        print(err)
+        bad += 1
+sys.exit(1 if bad else 0)
+PY
 echo setup done
